@@ -42,7 +42,8 @@ PROFILES = {
                   "datagram_sizes": SIZES, "big_cert_p": 0.3, "blackout_on_accept_p": 0.2},
     "fault_free": {"fault_free": True, "datagram_sizes": SIZES, "big_cert_p": 0.3},
     "zero_rtt": {"faults": ("drop", "dup", "delay", "blackout", "timer-late"), "datagram_sizes": SIZES,
-                 "t_adv_max": 3.0, "max_ops": 5},
+                 "t_adv_max": 3.0, "max_ops": 5, "op_weights": OPS_CLOSE, "custom_ops": {"close": op_close},
+                 "blackout_on_accept_p": 0.2},
 }
 
 
